@@ -315,3 +315,76 @@ class MuxSpec(pure.Spec):
             return case[:200]
         return "cfgA=%s cfgB=%s " % (cfgs[0][:6], cfgs[1][:6]) + "; ".join(
             "%s%s" % (NAMES.get(l[0], l[0]), l[1:6]) for l in labels[:60])
+
+
+PROLOGUE = [[10, 0, 80, 1, 104], [18, 0], [18, 1], [11, 0, 0], [12, 1]]
+
+
+def derive_flow(case, impl):
+    """single-flow pair case -> (flow-model case, expected result sections) or None"""
+    try:
+        cfgs, labels = parse_case(case)
+        outs = parse_out(impl)
+    except Exception:
+        return None
+    if labels[:5] != PROLOGUE or len(outs) < len(labels):
+        return None
+    fc = [31, cfgs[0][0], cfgs[0][1], cfgs[1][0], cfgs[1][1]]
+    exp = []
+    for l, o in zip(labels[5:], outs[5:]):
+        if l[0] == 14:
+            data, j = [], 4
+            for _ in range(l[3]):
+                c, j = lp(l, j)
+                data += c
+            l = [13, l[1], l[2], len(data)] + data
+        elif l[0] not in (13, 15, 16, 18):
+            return None
+        fc += [len(l)] + l
+        res = o[0]
+        if l[0] == 15 and res[:1] == [0]:
+            pass
+        exp += [len(res)] + res
+    return " ".join(map(str, fc)), " ".join(map(str, exp))
+
+
+class FlowSpec(MuxSpec):
+    """mux property whose multi-step theorems live on the one-direction flow model: the pair
+    correspondence plus the flow model checked against the same real runs"""
+
+    def derived(self, label, cases, impl):
+        if "single" not in label:
+            return [], []
+        dc, di = [], []
+        for c, i in zip(cases, impl):
+            r = derive_flow(c, i)
+            if r is not None:
+                dc.append(r[0])
+                di.append(r[1])
+        return dc, di
+
+    def cell(self, case, impl):
+        if case.startswith("31 "):
+            t = impl.split()
+            feats = set()
+            if " 1 1 " in " " + impl + " ":
+                feats.add("pending")
+            if " 2 0 0 " in " " + impl + " ":
+                feats.add("eof")
+            if " 2 2 1 " in " " + impl + " ":
+                feats.add("brokenpipe")
+            return "flow/" + "+".join(sorted(feats)) if feats else None
+        return MuxSpec.cell(self, case, impl)
+
+    def classify(self, case, impl, model):
+        if case.startswith("31 "):
+            a, b = impl.split(), model.split()
+            k = next((i for i, (x, y) in enumerate(zip(a, b)) if x != y), min(len(a), len(b)))
+            return True, "flow-model-result", ("the one-direction flow model (on which the theorems are proved) predicts a different "
+                                              "read/write result than the real pair at output position %d" % k)
+        return MuxSpec.classify(self, case, impl, model)
+
+    def describe(self, case):
+        if case.startswith("31 "):
+            return "flow model case " + case[:300]
+        return MuxSpec.describe(self, case)
